@@ -254,6 +254,19 @@ def same_answer(a, b):
     a, b = np.asarray(a, dtype=float), np.asarray(b, dtype=float)
     if a.shape != b.shape:
         return False
+    if a.ndim == 2 and a.shape[0] == 2 and a.shape[1] >= 4 and np.all(np.diff(a[0]) > 0) and np.all(np.diff(b[0]) > 0):
+        # a profile (abscissas, cost): the scanned interval follows the symmetric uncertainty, which the backend may refine by a few
+        # per cent during an asymmetric-error query - the two answers are compared as FUNCTIONS on their common interval
+        width = a[0][-1] - a[0][0]
+        if abs(b[0][0] - a[0][0]) > 0.08 * width or abs(b[0][-1] - a[0][-1]) > 0.08 * width:
+            return False
+        m = (b[0] >= a[0][0]) & (b[0] <= a[0][-1])
+        ya = np.interp(b[0][m], a[0], a[1])
+        off = 0.0
+        if np.nanmin(np.abs(a[1])) > 1.0 or np.nanmin(np.abs(b[1])) > 1.0:  # absolute cost values: compare the rise
+            off = np.nanmin(b[1]) - np.nanmin(a[1])
+        rise = max(np.nanmax(a[1]) - np.nanmin(a[1]), 1e-300)
+        return bool(np.all(np.abs(b[1][m] - off - ya) <= 0.08 * rise + 0.1))
     scale = max(np.nanmax(np.abs(a)) if a.size else 0.0, np.nanmax(np.abs(b)) if b.size else 0.0, 1e-300)
     both_nan = np.isnan(a) & np.isnan(b)  # "not defined" twice is the same answer
     return bool(np.all((np.abs(a - b) <= 5e-2 * scale + 2e-3) | both_nan))
